@@ -14,6 +14,7 @@ import (
 	"os"
 	"sort"
 	"strings"
+	"time"
 
 	"github.com/ohler55/slip"
 	"github.com/ohler55/slip/pkg/bag"
@@ -29,6 +30,8 @@ type c18Run struct {
 	impl  *c18Impl
 	agree int
 	total int
+	// how long a call that hands out bags is waited for before it counts as blocked
+	blockLimit time.Duration
 }
 
 func c18Avoids(c *lib.Ctx) c18Avoid {
@@ -475,7 +478,7 @@ func (v *gv) oddKind() string {
 // ---------------------------------------------------------------------------------------------
 
 func runC18(c *lib.Ctx) {
-	r := &c18Run{c: c, impl: newC18Impl()}
+	r := &c18Run{c: c, impl: newC18Impl(), blockLimit: 10 * time.Minute}
 	// lib.NewRng(seed) streams of neighbouring seeds are shifted copies of each other (state =
 	// seed*C + K, advanced by C per draw); the generator is therefore derived from a mixed output
 	// of c.Rng, which decorrelates the seeds.
